@@ -79,6 +79,29 @@ def cases(rng, tier):
     for p in files:
         data = open(p, "rb").read()
         if len(data) <= 8000: pool.append((data, [], 3))
+    # structured hostile run-length arrays: runs / values / row count inconsistent in every direction
+    from vlib import ALLTYPES, rand_array
+    for i in range({"quick": 150, "thorough": 3000, "search": 100}[tier]):
+        ty = rng.choice(ALLTYPES)
+        nv = rng.choice([0, 1, 2, 3, 5]); nr = rng.choice([nv, nv, nv + 1, nv + 3, max(0, nv - 1), 0])
+        runs = [rng.choice([0, 0, 1, 2, 255]) for _ in range(nr)]
+        total = sum(r + 1 for r in runs)
+        rowcount = rng.choice([total, total, total, total + 1, max(0, total - 1), 0, total + 256])
+        vals = rand_array(rng, ty, nv)
+        t = {"tmeta": [], "cols": [{"name": b"c", "ty": ty, "extra": []}], "slices": [[{"vals": [], "enc": G.PLAIN, "props": []}]]}
+        e = G.encode_table(t, layouts={(0, 0, -1): ("rawrle", rowcount, runs, vals)})
+        yield Case("r%d" % i, ["in 1 %s" % hx(bytes(e.b)), "session 1 *"], oracle=oracle_session,
+                   meta={"dist": {"mutation": "rle-structure", "runs_vs_values": "more" if nr > nv else "fewer" if nr < nv else "equal",
+                                  "rows_vs_runs": "equal" if rowcount == total else "differ"}})
+    # table-level metadata entries without a value (has-value flag 0), alone and next to ordinary ones
+    for i in range({"quick": 60, "thorough": 1000, "search": 40}[tier]):
+        t = G.rand_table(rng, maxrows=5)
+        from vlib import rand_elem
+        for j in range(rng.choice([1, 2])):
+            ty = rng.choice(ALLTYPES)
+            t["tmeta"].insert(rng.randint(0, len(t["tmeta"])), (b"NoValue%d" % j, ty, None, rand_elem(rng, ty) if rng.random() < 0.5 else None))
+        e = G.encode_table(t)
+        yield Case("v%d" % i, ["in 1 %s" % hx(bytes(e.b)), "session 1 *"], oracle=oracle_session, meta={"dist": {"mutation": "valueless-entry"}})
     for i in range(n):
         data, fields, ncols = rng.choice(pool)
         if rng.random() < 0.06:
